@@ -37,6 +37,26 @@ pub fn eval(ctx: &Ctx, op: &str, a: &[&str]) -> Option<String> {
             let mut args = vec![a[0].to_string()]; args.extend(split_args(a[1]));
             Some(cls(&cli::run_sfs(&ctx.sfs_bin, &args, &parse_hex(a[2]))))
         }
+        // pn.input cmd pathGiven envSet : `Input::new`'s refusal rule (stdin is a pipe here, never a terminal)
+        "pn.input" => {
+            use std::io::Write as _;
+            let data = b"#SHAPE=<3>\n1 2 3\n";
+            let path = format!("{}/tmp/pninput-{:?}.sfs", ctx.work, std::thread::current().id()).replace(['(', ')'], "");
+            std::fs::create_dir_all(format!("{}/tmp", ctx.work)).ok();
+            std::fs::write(&path, data).ok()?;
+            let mut c = std::process::Command::new(&ctx.sfs_bin);
+            c.arg(a[0]); if a[0] == "stat" { c.args(["-s", "sum"]); }
+            if a[1] == "1" { c.arg(&path); }
+            c.env_remove("SFS_ALLOW_STDIN").env("RUST_BACKTRACE", "0");
+            if a[2] == "1" { c.env("SFS_ALLOW_STDIN", "1"); }
+            c.stdin(std::process::Stdio::piped()).stdout(std::process::Stdio::piped()).stderr(std::process::Stdio::piped());
+            let mut child = c.spawn().ok()?;
+            { let mut si = child.stdin.take()?; let _ = si.write_all(data); }
+            let o = child.wait_with_output().ok()?;
+            let _ = std::fs::remove_file(&path);
+            let out = cli::Out { code: o.status.code().unwrap_or(-1), stdout: o.stdout, stderr: String::from_utf8_lossy(&o.stderr).into_owned() };
+            Some(cls(&out))
+        }
         // pn.view shape bits rm kp ps pi mk nm : view options on (degenerate) shapes, class only
         "pn.view" => {
             let r = c13::eval(ctx, "c13.view", a)?;
@@ -116,6 +136,8 @@ pub fn gen(ctx: &Ctx, rng: &mut Rng, out: &mut Vec<String>) {
             }
         }
     }
+    // Input::new: path argument vs piped stdin vs SFS_ALLOW_STDIN
+    for cmd in ["view", "fold", "stat"] { for p in ["0", "1"] { for e in ["0", "1"] { out.push(format!("pn.input\t{cmd}\t{p}\t{e}")); } } }
     // (b) empty and very short inputs, to all four subcommands
     let shorts: Vec<Vec<u8>> = vec![vec![], b"#".to_vec(), b"#S".to_vec(), b"#SHAP".to_vec(), b"#SHAPE".to_vec(), b"#SHAPE=".to_vec(), b"\x93".to_vec(), b"\x93NUMP".to_vec(), b"\x93NUMPY".to_vec(),
         b"\x93NUMPY\x01".to_vec(), b"\x93NUMPY\x01\x00".to_vec(), b"\x93NUMPY\x01\x00\x00".to_vec(), b"\n".to_vec(), b"\x1f".to_vec(), b"\x1f\x8b".to_vec(), b"\x1f\x8b\x08".to_vec(), b"BCF".to_vec(), b"BCF\x02\x02".to_vec(),
